@@ -1981,7 +1981,9 @@ def inventory_check(g, rep, what, decl_filter=None):
             for r in mine:
                 if r[0] == "roots":
                     prims = set(INT_TYPES_ALL) | {"f32", "f64", "char", "str", "bool"}
-                    bad = [x for x in r[1].split(",") if x and x not in ("core", "alloc", "serde", "arbitrary") and x not in prims]
+                    # paths the user wrote in bound expressions (constants of a user module / type) are the user's
+                    own = {str(e_[0]).split("::")[0] for e_ in d.env}
+                    bad = [x for x in r[1].split(",") if x and x not in ("core", "alloc", "serde", "arbitrary") and x not in prims and x not in own]
                     if bad:
                         rep.violation("expansion of %s names the crate root(s) %s" % (d.id, bad), payload)
                 if r[0] == "bare":
